@@ -86,10 +86,25 @@ def unit_create_table_statement():
     R = sort_of(ROW6)
     def m_sql_fields(ex, st, recv, args, kw):
         yield st, st.ghost["rows"]
+    def m_is_keyword(ex, st, recv, args, kw):
+        yield st, Sym(BOOL, ex.absfun_s("is_keyword_of_the_dialect", [z3.StringSort()], z3.BoolSort())(lift(args[0]).z))
+    def sf_has_head(ex, st, r):
+        t = G(st, "table"); kw_ = ex.absfun_s("is_keyword_of_the_dialect", [z3.StringSort()], z3.BoolSort())(t)
+        name = z3.If(kw_, z3.Concat(z3.StringVal('"'), t, z3.StringVal('"')), t)
+        return Sym(BOOL, z3.PrefixOf(z3.Concat(z3.StringVal("create table "), name, z3.StringVal(" (\n")), lift(r).z))
+    def c_head(ex, st):
+        t = G(st, "table"); kw_ = ex.absfun_s("is_keyword_of_the_dialect", [z3.StringSort()], z3.BoolSort())(t)
+        name = z3.If(kw_, z3.Concat(z3.StringVal('"'), t, z3.StringVal('"')), t)
+        return Sym(BOOL, z3.PrefixOf(z3.Concat(z3.StringVal("create table "), name, z3.StringVal(" (\n")), lift(st.ghost["__result__"]).z))
     def setup(ex, st):
         rows, c = fresh(UFList(ROW6), "rows"); st.pc.extend(c)
-        self = Ref("SqlFactory"); st.heap[self.oid] = {"_table": fresh(STR, "table")[0], "_indent": "    "}
-        st.frames[-1].env["self"] = self; st.ghost.update({"rows": rows, "this": self, "cols_done": 0, "nn_added": False, "seps_done": 0, "size_kind": 0})
+        table = fresh(STR, "table")[0]
+        self = Ref("SqlFactory"); st.heap[self.oid] = {"_table": table, "_indent": "    ", "_dialect": Ref("Dialect")}
+        st.frames[-1].env["self"] = self; st.ghost.update({"rows": rows, "this": self, "table": table, "cols_done": 0, "nn_added": False, "seps_done": 0, "size_kind": 0})
+        def after_head(ex_, s):                # the text is begun: 'create table <name> (' with the name quoted iff it is a keyword of the dialect (everything later is appended: result += ...)
+            ex_.obligations.append(Obligation("the-statement-begins-with-create-table-and-the-table-name-quoted-iff-it-is-a-keyword-of-the-dialect", s.pc, sf_has_head(ex_, s, s.frames[-1].env["result"]).z, "post", props=["C19"]))
+            s.ghost["head_checked"] = True
+        ex.stmt_hooks["result = 'create table ' + table + ' (\\n'"] = after_head
         def before_coldef(ex_, s):           # a new column definition starts
             s.ghost["nn_added"] = False; s.ghost["size_kind"] = 0
         ex.stmt_hooks_before["column_def = self._indent + field_name + ' ' + field_type"] = before_coldef
@@ -121,13 +136,14 @@ def unit_create_table_statement():
     def make(ctx):
         c = Contract("sql.SqlFactory.create_table_statement", setup,
                 returns=[Clause("cols_done == len(rows)", "exactly-one-column-definition-per-field-in-CID-order", props=["C19"]),
-                         Clause(lambda ex, st: Sym(BOOL, z3.SuffixOf(z3.StringVal("\n);"), lift(st.ghost["__result__"]).z)), "statement-is-closed", props=["C19"])],
+                         Clause(lambda ex, st: Sym(BOOL, z3.SuffixOf(z3.StringVal("\n);"), lift(st.ghost["__result__"]).z)), "statement-is-closed", props=["C19"]),
+                         Clause(lambda ex, st: Sym(BOOL, z3.BoolVal(bool(st.ghost.get("head_checked")))), "the-statement-text-is-started-with-create-table-and-the-table-name-(quoted-iff-a-keyword)", props=["C19"])],
                 raises={}, loops={0: LoopSpec(invariants=["cols_done == _i0", "seps_done == (0 if _i0 == 0 else _i0 - 1)", "first_field == (_i0 == 0)"],
                                               havoc={"result": STR, "first_field": BOOL, "column_def": STR, "field_name": STR, "field_type": STR, "length": Opt(INT), "precision": Opt(INT), "is_not_null": BOOL, "default_value": Opt(STR)},
                                               ghost_havoc={"cols_done": INT, "seps_done": INT})},
                 expect=["return"], n_loops=1, modifies=[])
-        return {"contract": c, "callees": {"ref:SqlFactory.sql_fields": m_sql_fields},
-                "assumptions": ["sql_fields() is used through its contract: one tuple (name, type, length, precision, allowed-to-be-empty, default) per field in CID order (verified: sql.SqlFactory.sql_fields)",
+        return {"contract": c, "callees": {"ref:SqlFactory.sql_fields": m_sql_fields, "ref:Dialect.is_keyword": m_is_keyword}, "spec_functions": {"has_head": sf_has_head},
+                "assumptions": ["is_keyword of the dialect is used through its contract (verified: sql.is_keyword)", "sql_fields() is used through its contract: one tuple (name, type, length, precision, allowed-to-be-empty, default) per field in CID order (verified: sql.SqlFactory.sql_fields)",
                                 "the statement text is constrained through ghost code at the statements that extend it (count and order of column definitions, their beginning, the NOT NULL suffix); the rendering of "
                                 "length/precision and the full text are compared by the bounded table C19.table",
                                 "the tuple slot the code calls is_not_null carries is_allowed_to_be_empty - the proof follows the data"]}
@@ -179,10 +195,12 @@ def unit_sql_fields():
 # reserved words spot-checked against the vendors' documentation: each word is reserved in the dialects it is listed under and in no other of the four
 # (ORDER is reserved in all four: Oracle's list has it too - the table in sql.py had it glued to the next word, see F-15)
 KEYWORD_SPOT = {"ANSI": "select table order group year level key user date value", "DB2": "index plan cluster select table order group year comment key user value type label summary",
-                "Transact-SQL": "file index top percent plan select table order group key user", "PL/SQL": "index cluster nowait mode share select table order group year level comment date value type hash"}
+                "Transact-SQL": "file index top percent plan select table order group key user", "PL/SQL": "file user index cluster nowait mode share select table order group year level comment date value type hash"}
 
 # reserved words a dialect's vendor lists with a footnote mark (IBM's Db2 table prints 'FIRST 1', 'SYSDATE 1', 'END-EXEC 2'): reserved all the same; other dialects may or may not reserve them
-KEYWORD_ALSO = {"DB2": "first last next old prior sysdate systimestamp currval organization period end-exec"}
+KEYWORD_ALSO = {"DB2": "first last next old prior sysdate systimestamp currval organization period end-exec",
+                # reserved words of Oracle SQL (SQL Language Reference, appendix 'Oracle SQL Reserved Words') that are no reserved words of the PL/SQL language
+                "PL/SQL": "number column integer rowid rownum varchar varchar2 smallint sysdate uid session access audit trigger validate whenever rows"}
 # real keywords that end in a digit (Oracle): every other entry 'word<digit>' of a keyword table is a footnote mark glued to the word
 KEYWORDS_ENDING_IN_A_DIGIT = {"like2", "like4", "sb1", "sb2", "sb4", "ub1", "ub2", "ub4", "varchar2", "nvarchar2", "utf8", "int1", "int2", "int4", "int8", "float4", "float8"}
 
@@ -302,6 +320,11 @@ def unit_c19_table():
             ddl = sql.SqlFactory(cid, "t", sql.SQL_NAME_TO_DIALECT_MAP[d]).create_table_statement()
             names = [l.strip().split(" ")[0] for l in ddl.splitlines()[1:-1]]
             want = [('"%s"' % n) if n.lower() in SPOT[d].split() else n for n in [(w.title() if i % 3 == 0 else w) for i, w in enumerate(WORDS)]]
+            # the table name is a name, too
+            for tname, quoted in (("order", True), ("customers", False), ("Select", True)):
+                head = sql.SqlFactory(cid, tname, sql.SQL_NAME_TO_DIALECT_MAP[d]).create_table_statement().splitlines()[0]
+                want_head = "create table %s (" % (('"%s"' % tname) if quoted else tname)
+                if head != want_head: return {"expected": want_head, "observed": head}
             # words the vendor lists with a footnote mark are quoted as well
             also = KEYWORD_ALSO.get(d, "").replace("end-exec", "").split()
             if also:
